@@ -1,4 +1,5 @@
 import WindVerif.Model.RecFile
+import WindVerif.Model.RecFileSeq
 import WindVerif.Drv.Common
 import WindVerif.Drv.LineFile
 /-
@@ -19,6 +20,13 @@ delimiter `','`.  Strings travel as in the other drivers (`decodeStr` / `encodeS
   recs                  `list <rec>|<rec>|…`, a record as `<f1>,<f2>,…`, `?` for a position that does not load
   slots                 `list` of `s<i>` (untouched source line i) / `t<text>` (stored text), `,` between
   save <ending>         `ret <text of the saved file>`
+The inherited `Sequence` / `MutableSequence` methods (`Model/RecFileSeq.lean`; records are compared, not texts):
+  index <f1> … <fk> [@ <start>|- [<stop>|-]]    `ret <i>` | `err ValueError` | `err Error` / `err TypeError` (the first
+                        position read that does not load, as `get`); `-` = the bound is omitted
+  count <f1> … <fk>     `ret <n>` | load errors as `get`
+  has <f1> … <fk>       `ret 0` | `ret 1` | load errors as `get`
+  remove <f1> … <fk>    `ok` | `err ValueError` | load errors as `get`
+  clear                 `ok` | load errors as `get` (the positions before the one that does not load stay)
 A record with a number of fields other than `k`, and anything unknown or malformed → `bad-op`.
 -/
 namespace WindVerif.Drv
@@ -58,6 +66,25 @@ def rfReverseErr (F : Fmt (List (List Char))) (f : RecFile) : String :=
   match order.find? (fun p => match f.slots[p]? with | some s => (F.load (f.raw s)).isNone | none => false) with
   | some p => (match f.slots[p]? with | some s => rfLoadErr (f.raw s) | none => "err IndexError")
   | none => "err IndexError"
+
+/-- the exception of an inherited method -/
+def rfSeqErr (f : RecFile) : RecFile.SeqErr → String
+  | .valueError => "err ValueError"
+  | .indexError => "err IndexError"
+  | .loadError p => rfErr f (p : Int) .loadError
+
+/-- `<f1> … <fk> [@ <start>|- [<stop>|-]]` -/
+def rfIndexArgs (ws : List String) : Option (List (List Char) × Option Int × Option Int) :=
+  let fs := ws.takeWhile (· ≠ "@")
+  let rest := ws.dropWhile (· ≠ "@")
+  match rfFields fs with
+  | none => none
+  | some r =>
+    match rest with
+    | [] => some (r, none, none)
+    | [_, a] => (optInt a).map (fun a => (r, a, none))
+    | [_, a, b] => (match optInt a, optInt b with | some a, some b => some (r, a, b) | _, _ => none)
+    | _ => none
 
 def rfStep (st : RFState) (ws : List String) : RFState × String :=
   let f := st.f
@@ -108,6 +135,33 @@ def rfStep (st : RFState) (ws : List String) : RFState × String :=
     | (f', none) => okf f' "ok"
     | (f', some .indexError) => okf f' "err IndexError"
     | (f', some .loadError) => okf f' (rfReverseErr F f'))
+  | "index" :: args => match rfIndexArgs args with
+    | some (r, a, b) => if r.length ≠ st.k then (st, "bad-op") else
+      (match f.indexRec F r a b with
+      | .ok i => (st, s!"ret {i}")
+      | .error e => (st, rfSeqErr f e))
+    | none => (st, "bad-op")
+  | "count" :: fs => match rfFields fs with
+    | some r => if r.length ≠ st.k then (st, "bad-op") else
+      (match f.countRec F r with
+      | .ok n => (st, s!"ret {n}")
+      | .error e => (st, rfSeqErr f e))
+    | none => (st, "bad-op")
+  | "has" :: fs => match rfFields fs with
+    | some r => if r.length ≠ st.k then (st, "bad-op") else
+      (match f.containsRec F r with
+      | .ok b => (st, if b then "ret 1" else "ret 0")
+      | .error e => (st, rfSeqErr f e))
+    | none => (st, "bad-op")
+  | "remove" :: fs => match rfFields fs with
+    | some r => if r.length ≠ st.k then (st, "bad-op") else
+      (match f.removeRec F r with
+      | .ok f' => okf f' "ok"
+      | .error e => (st, rfSeqErr f e))
+    | none => (st, "bad-op")
+  | ["clear"] => (match f.clearRec F with
+    | (f', none) => okf f' "ok"
+    | (f', some e) => okf f' (rfErr f' (-1) e))
   | ["recs"] => (st, "list " ++ joinWith "|" ((f.records F).map (fun x => match x with
       | some r => rfShowRec r
       | none => "?")))
